@@ -20,7 +20,11 @@ ENTRY = dict(
         "(unfinished = queued + in hand), `frames_reach_same_device` (frames put = frames delivered to that address + pending, every "
         "shutdown-free run) with `frames_delivered_at_rest`; trace-level `one_announce_per_loss_per_device`, `one_reconnect_per_loss`; "
         "`start_master_sent_after_k_frames`; `retry_until_success` / `retry_until_success_hung`; `retry_exactly_after_backoff`. "
-        "The machine is tied to the code by running identical histories on both (incl. gated histories and stalls at every cut point of a frame)."),
+        "The machine is tied to the code by running identical histories on both (incl. gated histories and stalls at every cut point of a frame). "
+        "Round 8: the connection object used AGAIN is a machine event (`reopen`: close() returned, then connect() / `async with` / close() on the same object) and a "
+        "generator dimension; `reopen_forgets_close`, `session_after_reopen` (the later session is a reachable state: every theorem applies to it), "
+        "`one_reconnect_per_loss_after_reopen`, `one_close_per_loss_after_reopen`; `consumers_default_eq` pins the consumers_count default; the live tasks are "
+        "compared BY COROUTINE NAME after every event (`Conn.taskNames`)."),
     level_note="Partial by nature: real sockets/serial errors are replaced by scripted faults; the model<->code tie is differential (generated histories); asyncio primitives are exercised, not modelled.",
     clauses={
         "failure at any point (EOF, OSError, read/write timeout) is detected": "theorem (detection lemmas, all reachable states) + correspondence (faults injected through StreamReader.feed_eof/set_exception, a raising/hanging drain, silence until the real @timeout fires)",
@@ -32,6 +36,7 @@ ENTRY = dict(
         "loss while frame consumers are in the middle of a frame (they exit while disconnected and must be replaced)": "theorem (consumers_topped_up, consumers_bounded, read_balance, frames_reach_same_device) + correspondence: 'gated' histories (slow subscriber on the protocol's new-device event) are replayed by the Lean driver and compared state by state (consumer count, read queue length, deliveries), plus the statement-level oracle",
         "a (re)connect attempt that neither succeeds nor raises is abandoned after CONNECT_TIMEOUT and retried": "theorem (hung_open_times_out, open_timeout_backs_off, retry_until_success_hung) + correspondence on the library's own TcpConnection / SerialConnection (asyncio.open_connection / open_serial_connection replaced by a scripted network that answers ok / raises / never) as well as on the Connection extension point",
         "frames that cannot be delivered (undecodable payload, sender without device class) cost no consumer": "theorem (consumers_topped_up, frames_reach_same_device with the pseudo kind 0) + correspondence (F:u / F:o feeds)",
+        "second use of the same connection object (connect after close, context manager twice, close twice, close before connect), then a loss": "theorem (session_after_reopen + the *_after_reopen corollaries) + correspondence (reopen histories: fault kind x failed attempts x context-manager route) + statement-level oracle per session",
         "a peer that stalls in the middle of a frame is detected": "correspondence (stall after k bytes for every cut point of a frame; the model's read timeout is per read() call) + statement-level oracle (loss handled within READER_TIMEOUT)",
     },
     assumptions=COMMON_ASSUME + [
